@@ -182,6 +182,15 @@ func (db *DB) FindInBatches(dest interface{}, batchSize int, fc func(tx *DB, bat
 		batch        int
 	)
 
+	// group the conditions of the chain, so that the key cursor of the following
+	// batches is ANDed to all of them and not only to the last term of an Or chain
+	if c, ok := tx.Statement.Clauses["WHERE"]; ok {
+		if where, ok := c.Expression.(clause.Where); ok && len(where.Exprs) > 0 {
+			c.Expression = clause.Where{Exprs: []clause.Expression{clause.And(where.Exprs...)}}
+			tx.Statement.Clauses["WHERE"] = c
+		}
+	}
+
 	// user specified offset or limit
 	var totalSize int
 	if c, ok := tx.Statement.Clauses["LIMIT"]; ok {
